@@ -1,16 +1,16 @@
 #!/bin/bash
 export VERIF_EVIDENCE_DIR=$(mktemp -d /tmp/evid.XXXX)   # runs on patched trees must not overwrite the committed evidence
 # tools_refactor.sh <name> <worktree> <props...>: a behaviour-preserving edit must not raise an alarm (exit 0 or 2, never a VIOLATION)
+# the checks read the worktree (VERIF_REPO), which carries exactly the recorded patch on top of /repo's HEAD; /repo is untouched
 NAME=$1; WT=$2; shift 2
 D=/verif/seeded/$NAME; mkdir -p $D
-cp $WT/_seed/patch.diff $WT/_seed/meta.json $D/ 2>/dev/null; cp $WT/_seed/equiv.cpp $D/ 2>/dev/null
+cp $WT/_seed/patch.diff $WT/_seed/meta.json $D/ 2>/dev/null; cp $WT/_seed/equiv.cpp $WT/_seed/equiv.sh $D/ 2>/dev/null
 LOG=$D/confirm.log; : > $LOG
-( cd $WT && cmake --build _build -j16 2>&1 | tail -1 && ctest --test-dir _build 2>&1 | grep "tests passed" ) | tee -a $LOG
-cd /repo && git apply $D/patch.diff || { echo "PATCH DOES NOT APPLY" | tee -a $LOG; exit 1; }
+( cd $WT && git checkout -q -- src inc && git apply _seed/patch.diff && cmake --build _build -j16 2>&1 | tail -1 && ctest --test-dir _build 2>&1 | grep "tests passed" ) | tee -a $LOG
+export VERIF_REPO=$WT
 cd /verif
 for p in "$@"; do
-  ./check $p > /tmp/ref_check.out 2>&1; rc=$?
-  echo "check $p rc=$rc: $(grep -c '^VIOLATION' /tmp/ref_check.out) violation lines $(grep '^VIOLATION' /tmp/ref_check.out | head -2 | sed 's/.*replay=.verif.replays.//' | tr '\n' ' ')" | tee -a $LOG
-  grep "^UNDECIDED" /tmp/ref_check.out | head -4 | cut -c1-230 | tee -a $LOG
+  ./check $p > /tmp/ref_check_$NAME.out 2>&1; rc=$?
+  echo "check $p rc=$rc: $(grep -c '^VIOLATION' /tmp/ref_check_$NAME.out) violation lines $(grep '^VIOLATION' /tmp/ref_check_$NAME.out | head -2 | sed 's/.*replay=.verif.replays.//' | tr '\n' ' ')" | tee -a $LOG
+  grep "^UNDECIDED" /tmp/ref_check_$NAME.out | head -4 | cut -c1-230 | tee -a $LOG
 done
-git -C /repo checkout -- . && echo "repo restored" | tee -a $LOG
